@@ -281,11 +281,14 @@ SCHED = [None]
 class Scheduler:
     """advances the generators; `choices` are symbolic integers; returns a verdict string or None"""
 
-    def __init__(self, choices=(), max_steps=400, preempt=()):
+    def __init__(self, choices=(), max_steps=400, preempt=(), prio=None):
         """choices: consumed whenever several threads are enabled and the current one cannot simply go on;
         preempt: [(step, thread)] - at scheduling step `step` control is handed to `thread` (if it can run):
         preemption-bounded exploration with symbolic positions and targets"""
         self.preempt = list(preempt)
+        self.prio = prio       # optional symbolic priorities, one per thread: the enabled thread with the highest
+        #                        priority runs (ties: lowest index) - priority schedules reach orders such as
+        #                        "thread 2 completely before thread 0" with no per-step choice
         self.choices = list(choices)
         self.k = 0
         self.max_steps = max_steps
@@ -321,8 +324,18 @@ class Scheduler:
                     for j in cand:
                         if pt == j:
                             forced = j
+            pinned = False
             if forced is not None:
                 i = forced
+                self.pin = forced
+            elif self.prio is not None and self.k >= len(self.choices):
+                if getattr(self, 'pin', None) in cand:
+                    i = self.pin      # a preempted-to thread keeps running until it blocks or ends
+                else:
+                    i = cand[0]
+                    for j in cand[1:]:
+                        if self.prio[j] > self.prio[i]:
+                            i = j
             elif cur in cand and self.k >= len(self.choices):
                 i = cur
             elif len(cand) > 1:
